@@ -11,10 +11,16 @@
                         spelling of the tokens (any letter case of and/or/not, any of the four WS characters);
      lex_skeleton       model of the ANTLR lexer loop (longest match, first rule wins) on the skeleton rules;
      compile fixed_prec model of generated parser boolExpr(_p) (right operands at precedence 6 / 5, as
-                        repaired) + listener stack machine + typing;  eval: EvalBool of And/Or/Not. *)
+                        repaired) + listener stack machine + typing;  eval: EvalBool of And/Or/Not;
+     word_ops           the four word operators whose token rule absorbs an optional `not` and the white
+                        space behind it (in / between / contains / icontains); spells_wordop o neg cs: every
+                        spelling of the operator token (any letter case; after `not` any positive number of
+                        any WS characters - for `in` exactly one, as the rule IN demands);  wordop_re o: its
+                        token rule as transcribed in LexerFull.full_table;  op_negated: the listener's test
+                        strings.Contains(strings.ToLower(text), "not");  norm_tok: a token up to spelling. *)
 From Coq Require Import List NArith Bool.
 From Storage Require Import Base.Bytes Lang.Tokens Lang.Lexer Lang.BoolGrammar Lang.Listener Lang.BoolSurface
-  Lang.BoolGrammarProofs Lang.LexerProofs Lang.C12Proofs.
+  Lang.BoolGrammarProofs Lang.LexerProofs Lang.C12Proofs Lang.Regex Lang.LexerFull Lang.WordOps Lang.WordOpsProofs Lang.WordOpsLexProofs.
 Import ListNotations.
 
 (* every skeleton, in every token spelling, is accepted and evaluates to its or-of-ands meaning:
@@ -113,3 +119,36 @@ Theorem filter_text_denotes : forall e ts cs, spells_filter e ts -> spells_toks 
   exists b, compile fixed_prec (toks_of (lex_skeleton cs)) = Some b /\ forall rho, eval b rho = sem e rho.
 Proof. exact text_lemma. Qed.
 Print Assumptions filter_text_denotes.
+
+(* word operators are case-insensitive and the white space inside `not between` / `not contains` /
+   `not icontains` / `not in` is free (as far as the token rule allows it): every spelling is a
+   sentence of the operator's token rule, and the listener reads it as negated exactly when the
+   spelling has the `not` - so all spellings of one operator are one and the same token to it *)
+Theorem word_operator_spelling : forall o neg cs, In o word_ops -> spells_wordop o neg cs ->
+  In (wo_kind o, wordop_re o) full_table /\ matches (wordop_re o) cs = true /\
+  op_negated cs = neg /\ norm_tok (wo_kind o) cs = Some (wo_kind o, [], neg).
+Proof. exact wordop_spelling_lemma. Qed.
+Print Assumptions word_operator_spelling.
+
+(* keyword_case_insensitive for the word-operator tokens, on the COMPLETE token rule table: wherever a
+   spelling of an operator - any letter case, any white space the rule allows after `not` - is followed
+   by white space or the end of the input, the lexer loop (longest match over all 36 rules, first rule
+   wins) emits ONE token of the operator's kind whose text is the whole spelling, and goes on with what
+   follows; by word_operator_spelling the listener reads that text as negated iff it has the `not` *)
+Theorem word_operator_token : forall o neg cs rest, In o word_ops -> spells_wordop o neg cs -> ends_word rest ->
+  lex_full (cs ++ rest) = Tok (wo_kind o) cs :: lex_full rest.
+Proof. exact wordop_lex_lemma. Qed.
+Print Assumptions word_operator_token.
+
+Theorem word_operator_respelling : forall o neg cs cs', In o word_ops ->
+  spells_wordop o neg cs -> spells_wordop o neg cs' ->
+  norm_tok (wo_kind o) cs = norm_tok (wo_kind o) cs' /\ op_negated cs = op_negated cs'.
+Proof. exact wordop_respelling_lemma. Qed.
+Print Assumptions word_operator_respelling.
+
+(* every letter case of every other keyword (and or not true false null anyOf allOf count isEmpty asc
+   desc sort by skip limit none where from) has the same normal form: the kind and the lower-case word *)
+Theorem keyword_normal_form : forall k letters cs, kind_in k keyword_kinds = true ->
+  forallb is_lower letters = true -> spells_word letters cs -> norm_tok k cs = Some (k, letters, false).
+Proof. exact keyword_norm_lemma. Qed.
+Print Assumptions keyword_normal_form.
